@@ -504,7 +504,7 @@ fn cmd_check(args: &Args) -> i32 {
     let level = args.get("level").unwrap_or("exploration").to_string();
     println!("rsim check property={prop} tier={tier} VERIF_SEED={master} workers={workers} build_profile={BUILD_PROFILE}");
 
-    if let Err(e) = simcore::gf::self_test().and_then(|()| simcore::envelope::self_test()) {
+    if let Err(e) = simcore::gf::self_test().and_then(|()| simcore::envelope::self_test()).and_then(|()| oneshot::self_test()) {
         eprintln!("harness error: reference model self-test failed: {e}");
         return 2;
     }
@@ -743,7 +743,7 @@ fn main() {
                 None => 2,
             },
             Some("hashes") => cmd_hashes(&args),
-            Some("selftest") => match simcore::gf::self_test().and_then(|()| simcore::envelope::self_test()) {
+            Some("selftest") => match simcore::gf::self_test().and_then(|()| simcore::envelope::self_test()).and_then(|()| oneshot::self_test()) {
                 Ok(()) => {
                     println!("self-test ok");
                     0
